@@ -1,5 +1,6 @@
 (* Conversions between OCaml ints/strings and the extracted Coq datatypes; hex line I/O. *)
 open N2model
+type string = Stdlib.String.t
 
 let rec pos_of_int (i : int) : positive =
   if i = 1 then XH
